@@ -264,6 +264,24 @@ class Interp:
     def assign(self, target, v: V, aug=False):
         if isinstance(target, ast.Name):
             self.frame.env[target.id] = v
+        elif isinstance(target, (ast.Tuple, ast.List)) and any(isinstance(e, ast.Starred) for e in target.elts):
+            k = [i for i, e in enumerate(target.elts) if isinstance(e, ast.Starred)]
+            if len(k) != 1:
+                self.unsupported(target, "assignment target")
+            nb, na = k[0], len(target.elts) - k[0] - 1
+            seq = self.models.iterate(v, target)
+            if seq is None and isinstance(v, ListV):
+                ln = self.models.list_len(v, target)
+                seq = [self.models.get_item(v, self.models.num_const(i), target) for i in range(ln)]
+            if seq is None:
+                self.unsupported(target, f"starred unpack of {v!r}")
+            if len(seq) < nb + na:
+                self.raise_("ValueError", target)
+            for t, x in zip(target.elts[:nb], seq[:nb]):
+                self.assign(t, x)
+            self.assign(target.elts[nb].value, ListV(list(seq[nb:len(seq) - na])))
+            for t, x in zip(target.elts[nb + 1:], seq[len(seq) - na:]):
+                self.assign(t, x)
         elif isinstance(target, (ast.Tuple, ast.List)):
             items = self.models.unpack(v, len(target.elts), target)
             for t, x in zip(target.elts, items):
@@ -295,12 +313,21 @@ class Interp:
             raise AbsRaise(self.frame.cur_exc)
         exc = st.exc
         args = ()
+        target = exc.func if isinstance(exc, ast.Call) else exc
+        name = src_of(target).split(".")[-1]
+        if not self.models.is_exception_class(name):
+            # `raise helper(...)` / `raise exc_object`: the value says what is raised
+            v = self.eval(exc)
+            if isinstance(v, ExcObjV):
+                raise AbsRaise(v.exc)
+            if isinstance(v, OpaqueV) and v.tag == "exc" and self.frame.cur_exc is not None:
+                raise AbsRaise(self.frame.cur_exc)
+            if isinstance(v, ObjV) and v.ci is not None and self.models.is_exception_class(v.ci.name):
+                self.raise_(v.ci.name, st, ())
+            self.unsupported(st, f"raise of {v!r}")
         if isinstance(exc, ast.Call):
-            name = src_of(exc.func).split(".")[-1]
             # evaluate the arguments: they may themselves fail (e.g. attribute of None)
             args = tuple(self.eval(a) for a in exc.args)
-        else:
-            name = src_of(exc).split(".")[-1]
         self.raise_(name, st, args)
 
     def st_Try(self, st):
@@ -358,7 +385,7 @@ class Interp:
                 self.exec_block(st.orelse)
             return
         # opaque iterable: 0 iterations, or 1 iteration then havoc
-        n = self.choose(2, f"loop@{st.lineno}", ["0-iter", ">=1-iter"])
+        n = 1 if getattr(it, "nonempty", False) else self.choose(2, f"loop@{st.lineno}", ["0-iter", ">=1-iter"])
         if n == 0:
             self.exec_block(st.orelse)
             return
@@ -399,7 +426,11 @@ class Interp:
             elif isinstance(t, ast.Subscript):
                 obj = self.eval(t.value)
                 key = self.eval(t.slice)
-                self.st.effects.append(("delitem", obj, key, self.models.where(t)))
+                if isinstance(obj, ListV) and obj.items is None and isinstance(key, Num):
+                    # `del l[i]` is `l.pop(i)` without the result
+                    self.models.list_attr(obj, "pop", t).fn([key], {}, t)
+                else:
+                    self.st.effects.append(("delitem", obj, key, self.models.where(t)))
             elif isinstance(t, ast.Attribute):
                 obj = self.eval(t.value)
                 self.st.effects.append(("delattr", obj, t.attr, self.models.where(t)))
@@ -616,10 +647,15 @@ class Interp:
             return
         g.consumed = True
         gen = g.node.generators[0]
+        self.st.effects.append(("loop-iter", g.first_iter, g.node.lineno))
         seq = self.models.iterate(g.first_iter, g.node)
         fr = g.frame
         if seq is None:
-            # opaque source: one symbolic element stands for all
+            # opaque source: no element at all, or one symbolic element standing for all
+            if not getattr(g.first_iter, "nonempty", False) and \
+                    self.choose(2, f"loop@{g.node.lineno}", ["0-iter", ">=1-iter"]) == 0:
+                return
+            g.nonempty = True
             self.frames.append(fr)
             try:
                 saved = dict(fr.env)
